@@ -171,7 +171,13 @@ class HistRunner:
                 data = (b'U%d' % (m.srcver.get(n, 0) + 1)).ljust(st.st_size - 1, b'u')[:st.st_size - 1] + b'\n'
                 write_file(fp, data)
                 sec, sub = divmod(st.st_mtime_ns, 10 ** 9)
-                ns = sec * 10 ** 9 + (sub + 500000000) % 10 ** 9
+                # never an mtime this file has had before (a second edit must not land on the very instant redo recorded)
+                seen = self.__dict__.setdefault('mtimes_seen', {}).setdefault(n, set())
+                seen.add(st.st_mtime_ns)
+                ns = sec * 10 ** 9 + (sub + 250000000) % 10 ** 9
+                while ns in seen:
+                    ns = sec * 10 ** 9 + (ns % 10 ** 9 + 1000000) % 10 ** 9
+                seen.add(ns)
                 os.utime(fp, ns=(ns, ns))
             elif how == 'replace' or not os.path.lexists(fp):
                 tmp = fp + '.usertmp'
